@@ -75,10 +75,20 @@ func emitC08(t *tr) {
 	// time.After(fileLockPollInterval), and whether emptyCount is ever reset
 	if fd := t.funcs["FileStorage.Lock"]; fd != nil && fd.Body != nil {
 		var retries, sleep string
-		poll, resets, guard := false, false, false
+		poll, resets, guard, undec := false, false, false, false
 		ast.Inspect(fd.Body, func(n ast.Node) bool {
 			switch x := n.(type) {
 			case *ast.IfStmt:
+				// the branch that counts empty reads: `if err2 != nil {` or `if errors.Is(err2, io.EOF) {`
+				if len(x.Body.List) > 0 {
+					for _, st := range x.Body.List {
+						if inc, isInc := st.(*ast.IncDecStmt); isInc && exprStr(inc.X) == "emptyCount" {
+							if c, isBin := x.Cond.(*ast.BinaryExpr); isBin && c.Op == token.NEQ && exprStr(c.X) == "err2" && exprStr(c.Y) == "nil" {
+								undec = true
+							}
+						}
+					}
+				}
 				be, ok := x.Cond.(*ast.BinaryExpr)
 				// `emptyCount < N || lockfileRecentlyModified(filename)`: the retry limit only counts once
 				// the file has not been modified for a while
@@ -144,6 +154,8 @@ func emitC08(t *tr) {
 			if gfactor == "" {
 				guard, gfactor = false, "0"
 			}
+			t.p("Definition lock_undecodable_as_empty : bool := %v. (* Lock: the empty-file branch is entered on %s *)\n", undec,
+				map[bool]string{true: "any decode error (err2 != nil)", false: "io.EOF only; other decode errors are returned"}[undec])
 			t.p("Definition lock_empty_mtime_guard : bool := %v. (* Lock: %s *)\n", guard,
 				map[bool]string{true: "an empty lock file is treated as stale only when it was not modified recently", false: "the empty-read retry limit alone decides"}[guard])
 			t.p("Definition lock_empty_mtime_factor : Z := (%s)%%Z. (* lockfileRecentlyModified: time.Since(mtime) <= lockFreshnessInterval*%s *)\n", gfactor, gfactor)
